@@ -41,9 +41,25 @@ def parseEnt (j : Json) : Except String Ent := do
 def parseEnts (j : Json) (k : String) : Except String (List Ent) := do
   (← getArr j k).toList.mapM parseEnt
 
+def parseAEnt (j : Json) : Except String Alg.Entry := do
+  pure ⟨← getSym j "c", ← getSym j "u", ← getInt j "e"⟩
+
+/-- an operand's quantity: `{"es": [{c,u,e},..], "cap": caption, "derived": bool}` -/
+def parseAQ (j : Json) (k : String) : Except String Alg.Quantity := do
+  let o ← (j.getObjVal? k)
+  pure ⟨← (← getArr o "es").toList.mapM parseAEnt, ← getSym o "cap", ← getBool o "derived"⟩
+
 def parseXOp (j : Json) : Except String XOp := do
   let k ← getStr j "k"
   match k with
+  | "sumq" =>
+    let f ← getStr j "f"
+    let op ← match f with
+      | "add" => pure Alg.SameOp.add
+      | "sub" => pure Alg.SameOp.sub
+      | _ => throw s!"bad sum {f}"
+    pure (.sumq op (← parseAQ j "a") (← parseAQ j "b") (← getRat j "x") (← getRat j "y"))
+  | "eqq" => pure (.eqq (← parseAQ j "a") (← parseAQ j "b"))
   | "createu" => pure (.createU (← getSym j "u"))
   | "createdict" => pure (.createDict (← getBool j "validate") (← parseEnts j "es"))
   | "cmpq" =>
@@ -70,13 +86,25 @@ def outJ (op : FOp) : Except ErrKind FOut → Json
       ("M", ratJ (maxR (magOf op) (absR x)))])]
   | .ok (.bool b) => Json.mkObj [("ok", Json.mkObj [("b", .bool b)])]
 
-def xmagOf : XOp → Rat
+/-- magnitude of a sum: the operands as given and as matched (`_MatchQuantities` rescales them) -/
+def sumMag (db : Db) (a b : Alg.Quantity) (x y : Rat) : Rat :=
+  match Alg.matchQuantities db a.entries b.entries x y with
+  | .ok (_, _, w1, w2) => maxR (maxR (absR x) (absR y)) (maxR (absR w1) (absR w2))
+  | .error _ => maxR (absR x) (absR y)
+
+def xmagOf (db : Db) : XOp → Rat
   | .plain op => magOf op
   | .cmpq _ _ _ x y => maxR (absR x) (absR y)
+  | .sumq _ a b x y => sumMag db a b x y
   | _ => 0
 
-def xoutJ (op : XOp) : Except ErrKind XOut → Json
+def aentJ (e : Alg.Entry) : Json := Json.arr #[symJ e.cat, symJ e.unit, .str (toString e.exp)]
+
+def xoutJ (db : Db) (op : XOp) : Except ErrKind XOut → Json
   | .error e => errJ e
+  | .ok (.sum q z) =>
+    Json.mkObj [("ok", Json.mkObj [("e", Json.arr (q.entries.map aentJ).toArray), ("cap", symJ q.caption),
+      ("derived", .bool q.derived), ("x", ratJ z), ("M", ratJ (maxR (xmagOf db op) (absR z)))])]
   | .ok (.plain o) =>
     match op with
     | .plain fop => outJ fop (.ok o)
@@ -87,7 +115,7 @@ def xoutJ (op : XOp) : Except ErrKind XOut → Json
 
 def runOps : XState → List XOp → List Json
   | _, [] => []
-  | st, op :: ops => xoutJ op (xstep st op).2 :: runOps (xstep st op).1 ops
+  | st, op :: ops => xoutJ st.db op (xstep st op).2 :: runOps (xstep st op).1 ops
 
 def handle (j : Json) : Except String Json := do
   let op ← getStr j "op"
